@@ -21,6 +21,7 @@ Python holds no oracle: it builds, calls, transcribes.
 """
 import json
 import os
+import time
 from fractions import Fraction
 
 from .. import tlc, upj
@@ -60,7 +61,7 @@ class World:
         fluents = {f.name: f for f in pb.fluents}
         objects = {o.name: o for o in pb.all_objects}
         params = {p.name: p for a in pb.actions for p in a.parameters}
-        variables = {"x": Variable("x", types["T"], env)}
+        variables = {"x": Variable("x", types["T"], env), "y": Variable("y", types["T"], env), "z": Variable("z", types["Ts"], env)}
         self.sc = upj.Scope(pb, types, fluents, objects, params, variables)
         self.simp = Simplifier(env, pb)
 
@@ -220,13 +221,18 @@ def _replay_chunk(arg):
                     o[V]["r"] = BDUMMY
                     o[V]["rr"]["r"] = BDUMMY
         else:
-            o, dirty = (run_big_case if big else run_case)(w, e)
-            if o["built"]["exc"] == "TIMEOUT":
-                # building an expression cannot loop: the process was starved; try once more
-                w = World(Pj)
+            # A wall-clock time-out on an oversubscribed machine may be starvation, not a loop in the
+            # library: when the process received little CPU during the case, it is run again (fresh World).
+            for attempt in range(3):
+                c0 = time.process_time()
                 o, dirty = (run_big_case if big else run_case)(w, e)
-            if dirty:
-                w = World(Pj)
+                if dirty:
+                    w = World(Pj)
+                timed_out = o["built"]["exc"] == "TIMEOUT" or any(
+                    st["exc"] == "TIMEOUT" for V in ("E", "P") for st in (o[V], o[V]["rr"])
+                )
+                if not timed_out or time.process_time() - c0 >= LIMIT / 4.0:
+                    break
             ntimeouts += sum(1 for V in ("E", "P") for st in (o[V], o[V]["rr"]) if st["exc"] == "TIMEOUT")
         o["id"], o["fam"] = cid, fam
         recs.append(o)
